@@ -49,3 +49,20 @@ Theorem C09_validator_rejects_misplaced : forall unit d,
    end) -> validate unit d = false.
 Proof. exact validate_rejects_misplaced. Qed.
 Print Assumptions C09_validator_rejects_misplaced.
+
+(* both executions start from the same definition only if every function the definition gives as an inline string
+   reaches the C source: which wrappers make_source writes is READ from the current generate.py (Gen/C09_wrappers.v,
+   the isinstance(model_info.X, str) statements with their nesting) - a wrapper for X is written exactly when X is an
+   inline string, with the parameter list of its kind, whatever form the OTHER functions of the definition have *)
+From SM Require Import C09.Wrappers Gen.C09_wrappers.
+Theorem C09_code_wrappers : wrappers_translated = true -> forall inl, code_wrappers inl = wrappers inl.
+Proof.
+  intros Ht. try solve [vm_compute in Ht; discriminate Ht].
+  all: intros inl; unfold code_wrappers, wrappers, all_fns; cbn [filter map app].
+  all: destruct (inl FormVolume), (inl ShellVolume), (inl FIq), (inl FIqxy), (inl FIqac), (inl FIqabc); reflexivity.
+Qed.
+Print Assumptions C09_code_wrappers.
+Theorem C09_code_wrapper_iff : wrappers_translated = true -> forall inl f s,
+  In (f, s) (code_wrappers inl) <-> inl f = true /\ s = sig_of f.
+Proof. intros Ht inl f s. rewrite (C09_code_wrappers Ht). apply wrappers_spec. Qed.
+Print Assumptions C09_code_wrapper_iff.
